@@ -7,8 +7,8 @@ VERIF = os.path.dirname(os.path.dirname(os.path.abspath(__file__)))
 # id -> (level, engine, technique, text, note, design_ref)
 CHECKS = {
     "C19": ("model_checking", "E3+E1",
-            "bounded-exhaustive enumeration of codec/id/split inputs + preemption-bounded exhaustive schedule exploration (controlled scheduler) of the real Peer queue and NewID",
-            "Every message/frame/id/split case of the stated product is executed on the real codecs; every schedule of 3 threads x 2 NewID and of 2 senders x 2 messages against 2 flushes of the real cluster.Peer with at most 2 (quick) / 3 (thorough) preemptions is executed and checked for loss, duplication and reordering.",
+            "bounded-exhaustive enumeration of codec/id/split inputs + preemption-bounded exhaustive schedule exploration (controlled scheduler) of the real Peer queue, NewID and the pooled encoder",
+            "Every message/frame/id/split case of the stated product is executed on the real codecs; every schedule of 3 threads x 2 NewID and of 2 senders x 2 messages against 2 flushes of the real cluster.Peer with at most 2 (quick) / 3 (thorough) preemptions is executed and checked for loss, duplication and reordering; a message and a frame encoded by two goroutines at once must both round-trip. Peer flushes that need 1-3 transport calls are run with every subset of calls refused by the transport: every message must still be handed over once, in order.",
             "Statement-level sequentially-consistent interleavings only; sizes limited to the listed boundary values; transport (mesh unicast) replaced by a recording sender.",
             "DESIGN.md §4 C19"),
 }
@@ -34,14 +34,14 @@ CHECKS.update({
             "Every session of <=2 (quick) / <=3 (thorough) requests over 10 request kinds (xor-colliding filters, presence-change and link subscriptions) x 3 last-will variants is cut after its last packet with each of 6 endings (DISCONNECT, abrupt close, EOF-with-data, malformed, bad type, oversized) and at byte offsets inside its last packet; after the broker closes the socket the subscription index, connection counter, per-connection counters, the last-will deliveries and the presence notifications seen by a second client are compared with the reference. Burst family: a connection holding 1..150 (thorough: ..1000) subscriptions below a watched channel ends while the watcher's socket is stalled or not; every subscription must be gone and the watcher told about each once it reads again.",
             "in-memory transport attached through the real accept path; 'internal failure' = decoder error/panic only.",
             "DESIGN.md §4 C08"),
-    "C16": ("exploration", "E3",
-            "bounded-exhaustive enumeration of packet values of all 14 MQTT packet types, differential against eclipse/paho packets and the MQTT 3.1.1 length encoding",
-            "Every packet value of the stated product (flags, QoS incl. will QoS, ids, field lengths at 0/1/127/128/16383/16384 and at the 64 KiB boundaries, 0-3 tuples) is encoded by emitter and decoded by paho, encoded by paho and decoded by emitter, and round-tripped through emitter; remaining-length bytes are compared with the spec; panics are violations.",
+    "C16": ("exploration", "E3+E1",
+            "bounded-exhaustive enumeration of packet values of all 14 MQTT packet types, differential against eclipse/paho packets and the MQTT 3.1.1 length encoding + preemption-bounded exhaustive schedule exploration of two concurrent codec users",
+            "Every packet value of the stated product (flags, QoS incl. will QoS, ids, field lengths at 0/1/127/128/16383/16384 and at the 64 KiB boundaries, 0-3 tuples) is encoded by emitter and decoded by paho, encoded by paho and decoded by emitter, and round-tripped through emitter; remaining-length bytes are compared with the spec; panics are violations. Two connections decoding and encoding at the same time are explored under the controlled scheduler (<= 2 / 3 preemptions, yields inside the codec and its buffer pool): each sees what it sees alone.",
             "paho is the reference only for values it round-trips itself; byte contents are fixed patterns.",
             "DESIGN.md §4 C16"),
     "C18": ("model_checking", "E2",
             "explicit-state BFS over subscribe/unsubscribe/disconnect/presence-request histories of three clients on a real broker, FIFO barrier on the real presence queue",
-            "Every history to depth 3 (quick) / 5 (thorough) over 14 operations is replayed on a real broker; after every operation the watcher's inbox must hold exactly the expected subscribe/unsubscribe notifications (connection id and username checked), and in every state presence status requests for three channels must list exactly the connections the C02 reference says would receive a publish.",
+            "Every history to depth 3 (quick) / 5 (thorough) over 14 operations is replayed on a real broker; after every operation the watcher's inbox must hold exactly the expected subscribe/unsubscribe notifications (connection id and username checked), and in every state presence status requests for three channels must list exactly the connections the C02 reference says would receive a publish. A second search has one connection juggle three xor-colliding sub-channels of a watched channel.",
             "single broker (cluster survey returns nothing); notifications awaited through a no-op pushed through the real queue.",
             "DESIGN.md §4 C18"),
 })
@@ -76,19 +76,19 @@ CHECKS.update({
 })
 
 CHECKS.update({
-    "C03": ("exploration", "E3",
-            "bounded-exhaustive enumeration of (key target, permission mask, expiry, requested channel, operation) tuples through the real Authorize on real brokers per license version, compared in both directions with a string-level reference",
-            "169 targets x 681 requests x 6 operations with mask 0xFE on all three licenses plus all 256 masks x 3 expiries on representative pairs (quick), the full product with all masks (thorough); foreign-contract/signature/master keys crafted with the real cipher, undecryptable strings, banned keys and banned keys presented in another spelling (standard base64 alphabet); every disagreement is shrunk to a minimal shape-based signature.",
+    "C03": ("exploration", "E3+E1",
+            "bounded-exhaustive enumeration of (key target, permission mask, expiry, requested channel, operation) tuples through the real Authorize on real brokers per license version, compared in both directions with a string-level reference + preemption-bounded exhaustive schedule exploration of two concurrent requests",
+            "169 targets x 681 requests x 6 operations with mask 0xFE on all three licenses plus all 256 masks x 3 expiries on representative pairs (quick), the full product with all masks (thorough); foreign-contract/signature/master keys crafted with the real cipher, undecryptable strings, banned keys and banned keys presented in another spelling (standard base64 alphabet); every disagreement is shrunk to a minimal shape-based signature. Two simultaneous requests (channel parsing, key decryption, target validation) are explored under the controlled scheduler with <= 1 / 2 preemptions: each must be judged as when it is alone.",
             "grammar: 3 literals, '+', '#', depth <= 3 targets / <= 4 requests; single-contract provider.",
             "DESIGN.md §4 C03"),
     "C12": ("exploration", "E3",
             "bounded-exhaustive enumeration of key mutants (every single-character substitution, every XOR mask on every decoded byte, every pair of bit flips, every 8-byte block swap within and between keys) with grants measured through the real Authorize",
-            "For 40 issued keys per license version (5 masks x 4 targets x 2 expiries) every mutant of the listed edit families is presented to the real broker; grants(mutant) over 27-43 probe channels x 6 operations (+ use as master key) must be a subset of grants(original) (union of donors for cross-key swaps).",
+            "For 40 issued keys per license version (5 masks x 4 targets x 2 expiries) every mutant of the listed edit families is presented to the real broker; grants(mutant) over 27-43 probe channels x 6 operations (+ use as master key) must be a subset of grants(original) (union of donors for cross-key swaps). Donors for cross-key swaps: crafted keys with an equal salt, crafted keys with another salt, and keys minted by the real keygen (the broker's own salts).",
             "edits combining three or more changes are outside the bound; cryptographic strength itself is not a model-checking question. The structural malleability of the 32-character key format is recorded as a known finding.",
             "DESIGN.md §4 C12"),
-    "C20": ("exploration", "E3",
-            "bounded-exhaustive enumeration of licenses, 24-byte keys, candidate key strings and license strings through the real license/cipher code",
-            "License round trips for versions 1-3 over fixed and generated licenses; every value of every key byte, every salt, byte pairs at boundary values: encrypt -> 32 URL-safe characters -> decrypt = key and injective; every candidate string length 0-40 and every byte value at every position: rejected iff malformed; every truncation/substitution/suffix of valid licenses: Parse yields a license or an error, never a panic (journalled sub-process).",
+    "C20": ("exploration", "E3+E1",
+            "bounded-exhaustive enumeration of licenses, 24-byte keys, candidate key strings and license strings through the real license/cipher code + preemption-bounded exhaustive schedule exploration of two concurrent cipher callers",
+            "License round trips for versions 1-3 over fixed and generated licenses; every value of every key byte, every salt, byte pairs at boundary values: encrypt -> 32 URL-safe characters -> decrypt = key and injective; every candidate string length 0-40 and every byte value at every position: rejected iff malformed; every truncation/substitution/suffix of valid licenses: Parse yields a license or an error, never a panic (journalled sub-process). Every ordered pair of 16 boundary-salt keys on a fresh cipher instance (re-encryption and a second instance must agree: the cipher is a function), and two simultaneous callers of one cipher object under the controlled scheduler (all schedules with <= 1 (quick) / 2 (thorough) preemptions, statement-level yields in the cipher code).",
             "the 2^192 key space is covered only through the structured family above.",
             "DESIGN.md §4 C20"),
 })
@@ -102,9 +102,9 @@ CHECKS.update({
 })
 
 CHECKS.update({
-    "C04": ("model_checking", "E2",
-            "explicit-state BFS over add/del/merge histories on 3 replicas of the real CRDT (volatile, durable, event.State), ghost-set oracle on every reached state, process-level workers",
-            "Every history of add/del with logical clocks {1,2,3} (ties and out-of-order included) and merges (clone, encode/decode, forwarded delta) among three replicas up to the stated depth is replayed on the real Volatile/Durable/State implementations; in every state every replica's (add, remove) times read through Get/Has/Range/Count (and the State accessors) must equal the pointwise maximum over the set of primitive updates it has transitively received, and Has must equal 'added and latest add not older than latest remove'.",
+    "C04": ("model_checking", "E2+E1",
+            "explicit-state BFS over add/del/merge histories on 3 replicas of the real CRDT (volatile, durable, event.State), ghost-set oracle on every reached state, process-level workers + preemption-bounded exhaustive schedule exploration of concurrent merges into one replica",
+            "Every history of add/del with logical clocks {1,2,3} (ties and out-of-order included) and merges (clone, encode/decode, forwarded delta) among three replicas up to the stated depth is replayed on the real Volatile/Durable/State implementations; in every state every replica's (add, remove) times read through Get/Has/Range/Count (and the State accessors) must equal the pointwise maximum over the set of primitive updates it has transitively received, and Has must equal 'added and latest add not older than latest remove'. Two merges and a local update arriving at one volatile replica at the same time are explored under the controlled scheduler (<= 2 / 3 preemptions): the replica must end at the pointwise maximum.",
             "states are merged on per-key maxima of the ghost sets + replica symmetry (cross-checked against the unreduced key); values after the 16-byte header are not compared.",
             "DESIGN.md §4 C04"),
     "C05": ("model_checking", "E2",
@@ -172,7 +172,7 @@ def main():
             "add_only": True,
         },
         "engines": [
-            {"name": "E1", "path": "/verif/engine/sched", "serves_properties": ["C01", "C10", "C17", "C19", "C13"], "kind_free_text": "controlled scheduler over sync/atomic shims + statement-level yields, iterative preemption-bounded DFS, sharded over processes"},
+            {"name": "E1", "path": "/verif/engine/sched", "serves_properties": ["C01", "C03", "C04", "C10", "C13", "C16", "C17", "C19", "C20"], "kind_free_text": "controlled scheduler over sync/atomic shims + statement-level yields, iterative preemption-bounded DFS, sharded over processes"},
             {"name": "E2", "path": "/verif/engine/xstate", "serves_properties": ["C01", "C02", "C04", "C05", "C07", "C13", "C14", "C18"], "kind_free_text": "explicit-state BFS over the real transition functions, states deduplicated by canonical dump of implementation state"},
             {"name": "E3", "path": "/verif/harness", "serves_properties": ["C03", "C06", "C11", "C12", "C16", "C17", "C19", "C20"], "kind_free_text": "bounded-exhaustive enumeration of inputs/configurations against a reference"},
             {"name": "E4", "path": "/verif/harness", "serves_properties": ["C08", "C09", "C15"], "kind_free_text": "cut-point / crash-point / deviation enumeration in isolated worker processes"},
